@@ -25,8 +25,11 @@ Updated(t, newMap) ==
         \/ (/\ Closed(store'[t], e.root)              \* C13: everything the root denotes is persisted
             /\ Leaves(store'[t], e.root) = Entries(newMap)))   \* C13: and denotes exactly the map
     /\ UNCHANGED dmg
-\* an operation on a damaged tree may fail; then nothing changes
-Failed(t) == t \in dmg /\ UNCHANGED <<map, root, store, dmg>>
+\* an operation on a (deliberately) damaged tree may fail; map and root stay, but the operation may already have written or
+\* removed nodes before it met the missing one: the model store follows the logged delta so that it stays the real store
+Failed(t) == /\ t \in dmg
+             /\ store' = [store EXCEPT ![t] = ApplyDelta(@, e.adds, e.dels)]
+             /\ UNCHANGED <<map, root, dmg>>
 
 TInsert == IsEv(l, "Insert") /\ e.t \in STrees
            /\ IF e.ok THEN Updated(e.t, (e.k :> e.v) @@ map[e.t]) ELSE Failed(e.t)
